@@ -501,6 +501,34 @@ func (bb *TwoDBoundingBox) UnmarshalJSON(data []byte) error {
 // A 2D Point in the CRS indicated elsewhere
 type TwoDPoint [2]float64
 
+func (p *TwoDPoint) UnmarshalJSON(data []byte) error {
+	var ords []float64
+	if err := json.Unmarshal(data, &ords); err != nil {
+		return err
+	}
+	if len(ords) != len(p) {
+		return fmt.Errorf(`a 2D point should have %d ordinates, not %d`, len(p), len(ords))
+	}
+	copy(p[:], ords)
+	return nil
+}
+
+func (p *TwoDPoint) UnmarshalJSONFromMap(data interface{}) error {
+	dataList, ok := data.([]interface{})
+	if !ok {
+		return fmt.Errorf(`2D point data is not an array but a %T`, data)
+	}
+	if len(dataList) != len(p) {
+		return fmt.Errorf(`a 2D point should have %d ordinates, not %d`, len(p), len(dataList))
+	}
+	for i := range dataList {
+		if p[i], ok = dataList[i].(float64); !ok {
+			return fmt.Errorf(`2D point ordinate is not a number but a %T`, dataList[i])
+		}
+	}
+	return nil
+}
+
 func IsLatLon(crs CRS) (bool, error) {
 	authority := crs.Authority()
 	version := crs.Version()
